@@ -169,7 +169,11 @@ def linesWithin (p : Nat) (xs : List Entry) (d : Nat) : Nat := linesWithinFrom p
 
 /-! ### File header (outer: u16 length, two newlines; inner: u32 text length, text, user header) -/
 
-def natDigits (n : Nat) : Bytes := (toString n).toUTF8.toList
+/-- decimal digits, most significant first -/
+def natDigits (n : Nat) : Bytes :=
+  if n < 10 then [(48 + n).toUInt8] else natDigits (n / 10) ++ [(48 + n % 10).toUInt8]
+termination_by n
+decreasing_by omega
 
 def preambleText (p : Nat) : Bytes :=
   Gen.textPre ++ natDigits Gen.version ++ Gen.textMid ++ natDigits p ++ Gen.textPost
